@@ -85,6 +85,9 @@ def mask_where(self, mask, replace=None, remask=True, recursive=True):
         # mask would otherwise depend on numbers that are hidden underneath it.)
         if Qube.is_one_true(self._mask_):
             obj._set_mask_(True)
+
+        # ...and so does each derivative, whatever the mask of the object
+        if recursive or Qube.is_one_true(self._mask_):
             for (key, deriv) in self._derivs_.items():
                 if Qube.is_one_true(deriv._mask_) and key in obj._derivs_:
                     obj._derivs_[key]._set_mask_(True)
